@@ -1,10 +1,333 @@
 import EpModel.Driver.Util
-/- `build.*` and `spec.build.*` operations (stub; filled in by the owner of this family). -/
+import EpModel.Driver.EncLink
+import EpModel.Driver.EncNet
+import EpModel.Driver.Opt
+import EpModel.Model.Builder
+/- `build.*` operations (C10): PacketBuilder.
+
+   build.write <cfg> <payload>
+       → ok(size=<size()>,len=<bytes written>,b=<hex>)                              (len ≤ 2000)
+         ok(size=…,len=…,head=<first 128 bytes>,tail=<last 16 bytes>,ck=<Adler-32>) (len > 2000)
+         err(<BuildWriteError variant>,size=<size()>,written=<hex handed to the writer before the error>)
+         err(ctor(...)) when a checked constructor / `.options()` rejects a configured value
+   build.slice <cfg> <payload> <cap>
+       → ok(n=<returned length>,…same body as build.write…) / err(Space(<required>)) / err(<variant>)
+
+   <payload> := <hex> | "-" | "len:" N ":" byte            (N copies of the byte)
+
+   <cfg>  := <link> "/" <vlan> "/" <net> "/" <tp>          (fields ":"-separated, sub-sections "|")
+   <link> := none | eth:<src6>:<dst6> | sll:<ptype>:<alen>:<addr8>
+   <vlan> := none | s:<vid> | d:<outer>:<inner> | vs:<pcp>:<dei>:<vid>:<et>
+           | vd:<pcp>:<dei>:<vid>:<et>:<pcp>:<dei>:<vid>:<et>                (only behind eth)
+   <net>  := arp:<hw>:<proto>:<op>:<shw>:<sp>:<thw>:<tp>                     (needs a link; <tp> = none)
+           | v4:<src4>:<dst4>:<ttl> | v6:<src16>:<dst16>:<hop>
+           | ip4:<dscp>:<ecn>:<tlen>:<id>:<df>:<mf>:<fo>:<ttl>:<proto>:<ck>:<src4>:<dst4>:<opts>[|au:<nh>:<spi>:<seq>:<icv>]
+           | ip6:<tc>:<fl>:<plen>:<nh>:<hop>:<src16>:<dst16>{|hbh:<nh>:<pl> | |dst:… | |rt:… | |fd:… (needs rt)
+                                                            | |fr:<nh>:<fo>:<mf>:<id> | |au:<nh>:<spi>:<seq>:<icv>}
+   <tp>   := none | raw:<ip number> | udp:<sp>:<dp>
+           | tcp:<sp>:<dp>:<seq>:<win>|<flag calls: - or comma list of ns fin syn rst psh ack=N urg=N ece cwr>|<- | raw=<hex> | el=<opt.* element list>>
+           | tcph:<sp>:<dp>:<seq>:<ack>:<9 flag bits>:<win>:<ck>:<urg>:<opts hex>     (.tcp_header)
+           | i4:t:<variant>:<args> | i4:raw:<type>:<code>:<b58> | i4:ereq:<id>:<seq> | i4:erep:<id>:<seq>
+           | i6:t:<variant>:<args> | i6:raw:… | i6:ereq:… | i6:erep:…        (variants/args as in enc.icmpv4 / enc.icmpv6)
+-/
 namespace EpModel.Driver.Build
-open EpModel EpModel.Driver
+open EpModel EpModel.Driver EpModel.Codec EpModel.CodecNet EpModel.Builder
+
+/- parse results `Option (Except String α)`: `none` = bad-op, `some (.error s)` = a checked
+   constructor refused (printed `s`) -/
+
+def pOk {α} (x : α) : Option (Except String α) := some (.ok x)
+
+def natLt (lim : Nat) (s : String) : Option Nat := EncLink.argLt lim s
+def hexN (n : Nat) (s : String) : Option Bytes := EncLink.argHexN n s
+
+def parsePayload (s : String) : Option Bytes :=
+  match s.splitOn ":" with
+  | ["len", n, b] => do
+      let n ← natLt 1000000 n; let b ← natLt 256 b
+      pure (List.replicate n (UInt8.ofNat b))
+  | [h] => argHex h
+  | _ => none
+
+def parseLink (s : String) : Option (Option Link) :=
+  match s.splitOn ":" with
+  | ["none"] => some none
+  | ["eth", a, b] => do pure (Step.ethernet2 (← hexN 6 a) (← hexN 6 b))
+  | ["sll", pt, alen, addr] => do pure (Step.linuxSll (← natLt 8 pt) (← natLt 65536 alen) (← hexN 8 addr))
+  | _ => none
+
+def parseVlanH : List String → Option Vlan
+  | [p, d, v, e] => do
+      pure { pcp := ← natLt 8 p, dei := ← EncLink.argBool d, vid := ← natLt 4096 v, et := ← natLt 65536 e }
+  | _ => none
+
+def parseVlan (s : String) : Option (Option VlanH) :=
+  match s.splitOn ":" with
+  | ["none"] => some none
+  | ["s", v] => do pure (Step.singleVlan (← natLt 4096 v))
+  | ["d", o, i] => do pure (Step.doubleVlan (← natLt 4096 o) (← natLt 4096 i))
+  | "vs" :: r => do pure (some (.single (← parseVlanH r)))
+  | ["vd", a, b, c, d, e, f, g, h] => do
+      pure (some (.double (← parseVlanH [a, b, c, d]) (← parseVlanH [e, f, g, h])))
+  | _ => none
+
+def errOf {α} (e : Except Err α) : Except String α :=
+  match e with
+  | .ok x => .ok x
+  | .error e => .error (Err.render e)
+
+/-- the extension sub-sections of `ip6:` in any order, each at most once -/
+def parseExt6 (e : Ipv6Exts) (fd : Option Ipv6RawExtHeader) (s : String) :
+    Option (Except String (Ipv6Exts × Option Ipv6RawExtHeader)) :=
+  match s.splitOn ":" with
+  | ["hbh", nh, pl] => do
+      if e.hbh.isSome then none
+      match ← EncNet.rawExtValue [nh, pl] with
+      | .error m => pure (.error m)
+      | .ok h => pOk ({ e with hbh := some h }, fd)
+  | ["dst", nh, pl] => do
+      if e.dest.isSome then none
+      match ← EncNet.rawExtValue [nh, pl] with
+      | .error m => pure (.error m)
+      | .ok h => pOk ({ e with dest := some h }, fd)
+  | ["rt", nh, pl] => do
+      if e.routing.isSome then none
+      match ← EncNet.rawExtValue [nh, pl] with
+      | .error m => pure (.error m)
+      | .ok h => pOk ({ e with routing := some { routing := h, finalDest := none } }, fd)
+  | ["fd", nh, pl] => do
+      if fd.isSome then none
+      match ← EncNet.rawExtValue [nh, pl] with
+      | .error m => pure (.error m)
+      | .ok h => pOk (e, some h)
+  | ["fr", nh, fo, mf, id] => do
+      if e.fragment.isSome then none
+      match ← EncNet.fragValue [nh, fo, mf, id] with
+      | .error m => pure (.error m)
+      | .ok h => pOk ({ e with fragment := some h }, fd)
+  | ["au", nh, spi, seq, icv] => do
+      if e.auth.isSome then none
+      match ← EncNet.authValue [nh, spi, seq, icv] with
+      | .error m => pure (.error m)
+      | .ok h => pOk ({ e with auth := some h }, fd)
+  | _ => none
+
+def parseExts6 : List String → Ipv6Exts → Option Ipv6RawExtHeader → Option (Except String (Ipv6Exts × Option Ipv6RawExtHeader))
+  | [], e, fd => pOk (e, fd)
+  | s :: rest, e, fd =>
+    match parseExt6 e fd s with
+    | none => none
+    | some (.error m) => some (.error m)
+    | some (.ok (e', fd')) => parseExts6 rest e' fd'
+
+def parseNet (s : String) : Option (Except String Net) :=
+  match s.splitOn "|" with
+  | [] => none
+  | main :: subs =>
+    match main.splitOn ":", subs with
+    | "arp" :: r, [] => do
+        match ← EncLink.mkArp r with
+        | .error e => pure (.error (Err.render e))
+        | .ok a => pOk (.arp a)
+    | ["v4", a, b, t], [] => do pOk (Step.ipv4 (← hexN 4 a) (← hexN 4 b) (← natLt 256 t))
+    | ["v6", a, b, t], [] => do pOk (Step.ipv6 (← hexN 16 a) (← hexN 16 b) (← natLt 256 t))
+    | "ip4" :: r, subs => do
+        match ← EncNet.ipv4Value r with
+        | .error m => pure (.error m)
+        | .ok ip =>
+          match subs with
+          | [] => pOk (.ipv4 ip { auth := none })
+          | [au] =>
+            match au.splitOn ":" with
+            | ["au", nh, spi, seq, icv] => do
+                match ← EncNet.authValue [nh, spi, seq, icv] with
+                | .error m => pure (.error m)
+                | .ok h => pOk (.ipv4 ip { auth := some h })
+            | _ => none
+          | _ => none
+    | "ip6" :: r, subs => do
+        match ← EncNet.ipv6Value r with
+        | .error m => pure (.error m)
+        | .ok ip =>
+          match ← parseExts6 subs Ipv6Exts.empty none with
+          | .error m => pure (.error m)
+          | .ok (e, fd) =>
+            match fd, e.routing with
+            | none, _ => pOk (.ipv6 ip e)
+            | some f, some r => pOk (.ipv6 ip { e with routing := some { routing := r.routing, finalDest := some f } })
+            | some _, none => none
+    | _, _ => none
+
+def applyFlag (h : Tcp) (s : String) : Option Tcp :=
+  match s.splitOn "=" with
+  | ["ns"] => some (Step.ns h)
+  | ["fin"] => some (Step.fin h)
+  | ["syn"] => some (Step.syn h)
+  | ["rst"] => some (Step.rst h)
+  | ["psh"] => some (Step.psh h)
+  | ["ece"] => some (Step.ece h)
+  | ["cwr"] => some (Step.cwr h)
+  | ["ack", n] => do pure (Step.ack h (← natLt 4294967296 n))
+  | ["urg", n] => do pure (Step.urg h (← natLt 65536 n))
+  | _ => none
+
+def applyOpts (h : Tcp) (s : String) : Option (Except String Tcp) :=
+  if s = "-" then pOk h
+  else if s.startsWith "raw=" then do
+    let d ← argHex (s.drop 4).toString
+    match TcpOpts.tryFromSlice d with
+    | .ok o => pOk (Step.options h o)
+    | .error _ => pure (.error s!"err(ctor(TcpOptions(NotEnoughSpace({d.length}))))")
+  else if s.startsWith "el=" then do
+    let es ← Opt.parseElems (s.drop 3).toString
+    match TcpOptions.encode es with
+    | .ok b => pOk (Step.options h { len := b.length, buf := b ++ List.replicate (40 - b.length) 0 })
+    | .err (.notEnoughSpace n) => pure (.error s!"err(ctor(TcpOptions(NotEnoughSpace({n}))))")
+    | .panic => pure (.error "panic")
+  else none
+
+def parseIcmp4 : List String → Option (Except String Tp)
+  | ["t", v, args] => do
+      match ← EncLink.mkIcmp4 ["0", v, args] with
+      | .error e => pure (.error (Err.render e))
+      | .ok h => pOk (Step.icmpv4 h.ty)
+  | ["raw", t, c, b] => do pOk (Step.icmpv4Raw (← natLt 256 t) (← natLt 256 c) (← hexN 4 b))
+  | ["ereq", i, s] => do pOk (Step.icmpv4EchoRequest (← natLt 65536 i) (← natLt 65536 s))
+  | ["erep", i, s] => do pOk (Step.icmpv4EchoReply (← natLt 65536 i) (← natLt 65536 s))
+  | _ => none
+
+def parseIcmp6 : List String → Option (Except String Tp)
+  | ["t", v, args] => do
+      match ← EncLink.mkIcmp6 ["0", v, args] with
+      | .error e => pure (.error (Err.render e))
+      | .ok h => pOk (Step.icmpv6 h.ty)
+  | ["raw", t, c, b] => do pOk (Step.icmpv6Raw (← natLt 256 t) (← natLt 256 c) (← hexN 4 b))
+  | ["ereq", i, s] => do pOk (Step.icmpv6EchoRequest (← natLt 65536 i) (← natLt 65536 s))
+  | ["erep", i, s] => do pOk (Step.icmpv6EchoReply (← natLt 65536 i) (← natLt 65536 s))
+  | _ => none
+
+/-- transport section: the transport header (if any) and the `last_next_header_ip_number` -/
+def parseTp (s : String) : Option (Except String (Option Tp × Nat)) :=
+  match s.splitOn "|" with
+  | [main] =>
+    match main.splitOn ":" with
+    | ["none"] => pOk (none, 0)
+    | ["raw", n] => do pOk (none, ← natLt 256 n)
+    | ["udp", a, b] => do pOk (some (Step.udp (← natLt 65536 a) (← natLt 65536 b)), 0)
+    | "tcph" :: r => do
+        match ← EncLink.mkTcp r with
+        | .error _ =>
+          match r with
+          | [_, _, _, _, _, _, _, _, o] => do
+              let d ← argHex o
+              pure (.error s!"err(ctor(TcpOptions(NotEnoughSpace({d.length}))))")
+          | _ => none
+        | .ok h => pOk (some (.tcp h), 0)
+    | "i4" :: r => do
+        match ← parseIcmp4 r with
+        | .error m => pure (.error m)
+        | .ok t => pOk (some t, 0)
+    | "i6" :: r => do
+        match ← parseIcmp6 r with
+        | .error m => pure (.error m)
+        | .ok t => pOk (some t, 0)
+    | _ => none
+  | [main, flags, opts] =>
+    match main.splitOn ":" with
+    | ["tcp", a, b, c, d] => do
+        let h := Step.tcp (← natLt 65536 a) (← natLt 65536 b) (← natLt 4294967296 c) (← natLt 65536 d)
+        let h ← (EncLink.argList flags).foldlM applyFlag h
+        match ← applyOpts h opts with
+        | .error m => pure (.error m)
+        | .ok h => pOk (some (.tcp h), 0)
+    | _ => none
+  | _ => none
+
+def parseCfg (s : String) : Option (Except String Cfg) :=
+  match s.splitOn "/" with
+  | [l, v, n, t] => do
+      let link ← parseLink l
+      let vlan ← parseVlan v
+      match ← parseNet n with
+      | .error m => pure (.error m)
+      | .ok net =>
+        match ← parseTp t with
+        | .error m => pure (.error m)
+        | .ok (tp, last) =>
+          -- the typed builder steps: VLAN only behind Ethernet II, ARP only behind a link and
+          -- without transport, IP always with `udp`/`tcp`/`icmp*` or the raw `write`
+          let isEth : Bool := match link with | some (.eth2 _) => true | _ => false
+          let isArp : Bool := match net with | .arp _ => true | _ => false
+          if vlan.isSome && !isEth then none
+          else if isArp && (link.isNone || t != "none") then none
+          else if !isArp && t == "none" then none
+          else pOk { link := link, vlan := vlan, net := net, tp := tp, last := last }
+  | _ => none
+
+/-! ### rendering -/
+
+/-- Adler-32 (RFC 1950) of the bytes -/
+def digest (b : Bytes) : Nat :=
+  let r := b.foldl (fun (acc : Nat × Nat) x =>
+    let a := (acc.1 + x.toNat) % 65521
+    (a, (acc.2 + a) % 65521)) (1, 0)
+  r.2 * 65536 + r.1
+
+def showBytes (b : Bytes) : String :=
+  if b.length > 2000 then
+    s!"head={hexOfBytes (b.take 128)},tail={hexOfBytes (b.drop (b.length - 16))},ck={digest b}"
+  else s!"b={hexOfBytes b}"
+
+def showTooBig (e : TooBig) : String := s!"PayloadLen(actual={e.actual},max={e.maxAllowed},type={e.ty})"
+
+/-- `none` = the implementation panics -/
+def showErr : BuildErr → Option String
+  | .payloadLen e => some (showTooBig e)
+  | .ipv4Exts (.extNotReferenced n) => some s!"Ipv4Exts(ExtNotReferenced({n}))"
+  | .ipv6Exts .hopByHopNotAtStart => some "Ipv6Exts(HopByHopNotAtStart)"
+  | .ipv6Exts (.extNotReferenced n) => some s!"Ipv6Exts(ExtNotReferenced({n}))"
+  | .icmpv6InIpv4 => some "Icmpv6InIpv4"
+  | .panic _ => none
+
+def runWrite (cfg : Cfg) (payload : Bytes) : String :=
+  let sz := size cfg payload.length
+  match build cfg payload with
+  | .ok out => s!"ok(size={sz},len={out.length},{showBytes out})"
+  | .error f =>
+    match showErr f.err with
+    | some e => s!"err({e},size={sz},written={hexOfBytes f.written})"
+    | none => "panic"
+
+def runSlice (cfg : Cfg) (payload : Bytes) (cap : Nat) : String :=
+  match writeToSlice cfg cap payload with
+  | .ok n out => s!"ok(n={n},len={out.length},{showBytes out})"
+  | .space r => s!"err(Space({r}))"
+  | .overflow => "!slice-overflow"
+  | .fail e =>
+    match showErr e with
+    | some e => s!"err({e})"
+    | none => "panic"
 
 def run (op : String) (args : List String) : Option String :=
   match op, args with
+  | "build.write", [c, p] => do
+      let payload ← parsePayload p
+      match ← parseCfg c with
+      | .error m => pure m
+      | .ok cfg =>
+        -- the ARP step has no payload parameter
+        match cfg.net with
+        | .arp _ => if payload ≠ [] then none else pure (runWrite cfg payload)
+        | _ => pure (runWrite cfg payload)
+  | "build.slice", [c, p, cap] => do
+      let payload ← parsePayload p
+      let cap ← natLt 1000000 cap
+      match ← parseCfg c with
+      | .error m => pure m
+      | .ok cfg =>
+        match cfg.net with
+        | .arp _ => if payload ≠ [] then none else pure (runSlice cfg payload cap)
+        | _ => pure (runSlice cfg payload cap)
   | _, _ => none
 
 end EpModel.Driver.Build
